@@ -207,9 +207,13 @@ PollW ==
 
 \* Cancel(): cancelReads ...
 Cancel ==
-  /\ pc = "top" /\ ncancel < MaxCancel
+  /\ pc = "top" /\ (ncancel % 100) < MaxCancel
   /\ op["R"].st = "park" \/ op["W"].st = "park"
-  /\ ncancel' = ncancel + 1
+  \* ghost in the hundreds and thousands (nothing reads it): did the cancelled operations have progress to report?
+  \* A reactor that keeps that progress and a reactor that was vacated at progress 0 are the same model state,
+  \* so without it the operations after a Cancel are only ever generated behind a Cancel at progress 0.
+  /\ ncancel' = ncancel + 1 + (IF op["R"].st = "park" /\ op["R"].sofar > 0 THEN 100 ELSE 0)
+                            + (IF op["W"].st = "park" /\ op["W"].sofar > 0 THEN 1000 ELSE 0)
   /\ UNCHANGED <<kernvars, wrap, bout>>
   /\ IF op["R"].st = "park"
        THEN /\ Complete("R", "cancelled", op["R"].sofar, op["R"].sofar, <<Plain("Cancel")>>, FALSE)
